@@ -48,7 +48,8 @@ MUTANTS: Dict[str, List[M]] = {
     "C01": [
         ("dumper loses the float resolver", "_loaders_dumpers.py", "    set_float_implicit_resolver(DefaultDumper)\n", "    pass\n", "C01.a"),
         ("loader float regex: dot-only alternative re-admits '._'", "_loaders_dumpers.py", "|\\\\.[0-9][0-9_]*(?:[eE][-+][0-9]+)?", "|\\\\.[0-9_]+(?:[eE][-+][0-9]+)?", "C01.a"),
-        ("registered type polarity flipped", "_typehints.py", "        if serialize:\n            val = registered_type.serializer(val)\n        elif not serialize and not registered_type.is_value_of_type(val):", "        if not serialize:\n            val = registered_type.serializer(val)\n        elif serialize and not registered_type.is_value_of_type(val):", "C01.e"),
+        ("registered type polarity flipped", "_typehints.py", "        if serialize:\n            val = registered_type.serializer(val)\n\n    # Enum", "        if not serialize:\n            val = registered_type.serializer(val)\n\n    # Enum", "C01.e"),
+        ("registered serializer sees any value again", "_typehints.py", "        if not registered_type.is_value_of_type(val):\n            val = registered_type.deserializer(val)\n        if serialize:\n            val = registered_type.serializer(val)", "        if serialize:\n            val = registered_type.serializer(val)\n        elif not registered_type.is_value_of_type(val):\n            val = registered_type.deserializer(val)", "C01.e"),
         ("dict key cast polarity flipped", "_typehints.py", "cast = str if serialize else int", "cast = int if serialize else str", "C01.e"),
         ("print_config flag maps to unknown dump kwarg", "_actions.py", '"skip_default": "skip_default", "skip_null"', '"skip_default": "skip_defaults", "skip_null"', "C01.d"),
         ("enum serialised on the parse path", "_typehints.py", "        if serialize:\n            if isinstance(val, typehint):\n                val = val.name", "        if not serialize:\n            if isinstance(val, typehint):\n                val = val.name", "C01.e"),
